@@ -28,7 +28,7 @@ def values(cls, r, k):
     if cls == 'fixmax': return [F(2 ** 31 - 1)]
     if cls == 'fixmin': return [F(-2 ** 31)]
     if cls == 'strempty': return [S('')]
-    if cls == 'strplain': return [S('hello'), S('a'), S('wl_compositor')] + [S(''.join(r.choice('abcxyz_-./:;') for _ in range(r.randint(1, 12)))) for _ in range(k)]
+    if cls == 'strplain': return [S('hello'), S('a'), S('wl_compositor'), S('long ' * 1000 + 'title'), S('x' * 4073)] + [S(''.join(r.choice('abcxyz_-./:;') for _ in range(r.randint(1, 12)))) for _ in range(k)]
     if cls == 'strcomma': return [S('a, b'), S(', '), S('x, '), S(', y'), S('1, 2, 3'), S(',')]
     if cls == 'strbracket': return [S('[x]'), S('array[4]'), S('[')]
     if cls == 'strparen': return [S('(x)'), S(')'), S('a)'), S('f(1, 2)'), S('), ')]
@@ -51,11 +51,11 @@ def values(cls, r, k):
     if cls == 'newunknown': return [{'k': 'new', 'type': '', 'id': 5}]
     if cls == 'fd': return [{'k': 'fd', 'v': 0}, {'k': 'fd', 'v': 3}, {'k': 'fd', 'v': 1023}]
     if cls == 'array0': return [{'k': 'array', 'n': 0}]
-    if cls == 'arrayn': return [{'k': 'array', 'n': 4}, {'k': 'array', 'n': 16}, {'k': 'array', 'n': 65536}]
+    if cls == 'arrayn': return [{'k': 'array', 'n': 4}, {'k': 'array', 'n': 16}, {'k': 'array', 'n': 65536}, {'k': 'array', 'n': 3}, {'k': 'array', 'n': 4095}]
     raise ValueError(cls)
 
 
-QUEUE = {'none': [None], 'word': ['x', 'Default'], 'words': ['Default Queue', 'Display Queue', 'mesa egl surface queue']}
+QUEUE = {'none': [None], 'empty': [''], 'word': ['x', 'Default'], 'words': ['Default Queue', 'Display Queue', 'mesa egl surface queue']}
 TAG = {'none': [''], 'num': ['1', '27']}
 TARGETS = [('wl_display', 1), ('wl_surface', 3), ('xdg_toplevel', 2 ** 31 - 1), ('wl_data_offer', -16777216), ('zwp_x_v1', -1), ('a', 12)]
 NAMES = ['commit', 'delete_id', 'a', 'set_title', 'configure_bounds2']
